@@ -194,14 +194,14 @@ pub fn depth(a: &OShape, b: &OShape) -> f64 {
     }
 }
 
-/// Independent second opinion on overlap: is there a point strictly inside both shapes?
-/// Samples candidate points (vertices, edge points, centres, midpoints) and tests
-/// containment with margin `tol`.  Used only to re-confirm witnesses.
+/// Independent second opinion on overlap: exhibit a point strictly inside both shapes.
+/// Polygons: Sutherland-Hodgman clipping of `a` by the half-planes of `b`, centroid of the
+/// result.  Discs: the point in the middle of the lens of the deepest disc pair.
+/// Used only to re-confirm witnesses found by `depth`.
 pub fn common_interior_point(a: &OShape, b: &OShape, tol: f64) -> Option<P> {
     fn inside(s: &OShape, p: P, tol: f64) -> bool {
         match s {
             OShape::Poly(v) => {
-                // convex polygon: signed distance to every edge line has one sign
                 let or = shoelace(v).signum();
                 let n = v.len();
                 for i in 0..n {
@@ -218,48 +218,63 @@ pub fn common_interior_point(a: &OShape, b: &OShape, tol: f64) -> Option<P> {
             OShape::Discs(d) => d.iter().any(|(c, r)| dist(*c, p) < r - tol),
         }
     }
-    let mut cands: Vec<P> = vec![];
-    let pts = |s: &OShape| -> Vec<P> {
-        match s {
-            OShape::Poly(v) => {
-                let n = v.len();
-                let c = v.iter().fold([0., 0.], |acc, p| add(acc, *p));
-                let c = [c[0] / n as f64, c[1] / n as f64];
-                let mut out = vec![c];
-                for i in 0..n {
-                    let (p, q) = (v[i], v[(i + 1) % n]);
-                    for k in 0..=16 {
-                        let t = k as f64 / 16.;
-                        out.push([p[0] + t * (q[0] - p[0]), p[1] + t * (q[1] - p[1])]);
+    let cand: Option<P> = match (a, b) {
+        (OShape::Poly(va), OShape::Poly(vb)) => {
+            let or = shoelace(vb).signum();
+            let mut poly: Vec<P> = va.clone();
+            let n = vb.len();
+            for i in 0..n {
+                let (p0, p1) = (vb[i], vb[(i + 1) % n]);
+                let e = sub(p1, p0);
+                let side = |p: P| (e[0] * (p[1] - p0[1]) - e[1] * (p[0] - p0[0])) * or;
+                let mut out: Vec<P> = vec![];
+                for k in 0..poly.len() {
+                    let (s0, s1) = (poly[k], poly[(k + 1) % poly.len()]);
+                    let (d0, d1) = (side(s0), side(s1));
+                    if d0 >= 0. {
+                        out.push(s0);
+                    }
+                    if (d0 >= 0.) != (d1 >= 0.) {
+                        let t = d0 / (d0 - d1);
+                        out.push([s0[0] + t * (s1[0] - s0[0]), s0[1] + t * (s1[1] - s0[1])]);
                     }
                 }
-                out
+                poly = out;
+                if poly.len() < 3 {
+                    break;
+                }
             }
-            OShape::Discs(d) => {
-                let mut out = vec![];
-                for (c, r) in d {
-                    out.push(*c);
-                    for k in 0..64 {
-                        let t = k as f64 / 64. * 2. * PI;
-                        out.push([c[0] + r * t.cos(), c[1] + r * t.sin()]);
-                    }
-                }
-                out
+            if poly.len() >= 3 {
+                let n = poly.len() as f64;
+                let c = poly.iter().fold([0., 0.], |acc, p| add(acc, *p));
+                Some([c[0] / n, c[1] / n])
+            } else {
+                None
             }
         }
+        (OShape::Discs(da), OShape::Discs(db)) => {
+            let mut best: Option<(f64, P)> = None;
+            for (c1, r1) in da {
+                for (c2, r2) in db {
+                    let d = dist(*c1, *c2);
+                    let dep = r1 + r2 - d;
+                    if dep > 0. && best.map(|b| dep > b.0).unwrap_or(true) {
+                        let p = if d == 0. {
+                            *c1
+                        } else {
+                            // centre of the lens along the line of centres (clamped into both discs)
+                            let s = ((r1 - dep / 2.) / d).max(0.).min(1.);
+                            [c1[0] + s * (c2[0] - c1[0]), c1[1] + s * (c2[1] - c1[1])]
+                        };
+                        best = Some((dep, p));
+                    }
+                }
+            }
+            best.map(|b| b.1)
+        }
+        _ => None,
     };
-    let pa = pts(a);
-    let pb = pts(b);
-    for p in pa.iter().chain(pb.iter()) {
-        cands.push(*p);
-    }
-    // midpoints between boundary samples of a and b that are close
-    for p in &pa {
-        for qq in &pb {
-            cands.push([(p[0] + qq[0]) / 2., (p[1] + qq[1]) / 2.]);
-        }
-    }
-    cands.into_iter().find(|p| inside(a, *p, tol) && inside(b, *p, tol))
+    cand.filter(|p| inside(a, *p, tol) && inside(b, *p, tol))
 }
 
 /// Area of a union of discs, exact for any configuration: Green's theorem over the arcs of
